@@ -134,7 +134,9 @@ def norm_ok(read_code, written_code):
 def check_write(mem, version, code, dest_seed, case):
     """Write a cart to x.p8.png and judge the file. Returns labels."""
     from pico8.game import file as pfile
+    from vlib import prelude
     _patch_compress()
+    prelude.files()
     labs = []
     try:
         g = cartgen.make_game(mem, version=version, code=code)
